@@ -107,8 +107,9 @@ def work(cases):
                          "aredecl": st[4].GetDeclarations()[0],
                          "buse": st[4].GetDeclarations()[0].GetInitializerExpression(),
                          "hfdecl": st[5].GetDeclarations()[0], "hflit": st[5].GetDeclarations()[0].GetInitializerExpression(),
-                         "casgx": st[6].GetExpression().GetLeft(), "casga": st[6].GetExpression().GetRight().GetLeft(), "casgg": st[6].GetExpression().GetRight().GetRight(),
-                         "xuse": st[7].GetExpression(),
+                         "pvdecl": st[6].GetDeclarations()[0], "hfuse": st[7].GetExpression().GetLeft(), "pvuse": st[7].GetExpression().GetRight().GetParent(),
+                         "casgx": st[8].GetExpression().GetLeft(), "casga": st[8].GetExpression().GetRight().GetLeft(), "casgg": st[8].GetExpression().GetRight().GetRight(),
+                         "xuse": st[9].GetExpression(),
                          "hdecl": mod.GetDeclarations()[1].GetDeclarations()[0]}
                 bad = None
                 for name, node in nodes.items():
@@ -117,7 +118,8 @@ def work(cases):
                         bad = (f"identifier-range:{name}", f"identifier `{name}` is reported at {got}, its characters are at {fmt(case['located'][name])}")
                         break
                 if bad is None:
-                    casgprod = st[6].GetExpression().GetRight()
+                    casgprod = st[8].GetExpression().GetRight()
+                    memberexpr = st[7].GetExpression().GetRight()
                     # the compiler's own AST passes, in its order, up to and including the one that computes the composite ranges
                     import io
                     from nsl import Compiler
@@ -131,7 +133,7 @@ def work(cases):
                     if ran[-1] != UpdateLocations.GetPass().Name:
                         raise RuntimeError("the compiler's pass list has no location pass: " + str(ran))
                     comp = {"sum": st[0].GetDeclarations()[0].GetInitializerExpression(), "xdeclstmt": st[0], "whilecond": st[1].GetCondition(), "whilestmt": st[1],
-                            "aredeclstmt": st[4], "hfdeclstmt": st[5], "casgprod": casgprod, "casgstmt": st[6], "retstmt": st[7], "function": f, "module": mod}
+                            "aredeclstmt": st[4], "hfdeclstmt": st[5], "memberexpr": memberexpr, "masgstmt": st[7], "casgprod": casgprod, "casgstmt": st[8], "retstmt": st[9], "function": f, "module": mod}
                     for name, node in comp.items():
                         got = str(node.GetLocation())
                         if got != fmt(case["composites"][name]):
